@@ -22,6 +22,13 @@ RULE = ("spends of the P2PK / P2PKH / m-of-n (1<=m<=n<=3) families built and sig
         "(documented limit; separators inside taken / untaken IF / NOTIF / ELSE branches x 1..3 unlocking pushes x CHECKSIG / CHECKSIGVERIFY / "
         "CHECKMULTISIG: error or stack, never a panic); library-built spends whose signature items have unusual lengths (r or s with a "
         "leading zero byte: 70 / 69 bytes, hard-coded nLockTime per flag and family; Transaction::sign_with_k with nonce 1/2: 60 bytes); "
+        "two signature checks in one script (<keyA> CHECKSIGVERIFY <keyB> CHECKSIG, separators before / between / behind the checks, FORKID and "
+        "legacy flags mixed, separators added / removed after signing, signatures swapped; decided by Spec/SpendTwo.v); keys of both "
+        "compression forms and the same key twice in one multisig, m = n = 3, counts pushed as data / non-minimally, non-empty dummy, the enum "
+        "values 0x40 / 0x80 as flag bytes (no panic), declared values 0 / 255 / 256 / 2^32 / 2^63 / 2^64-1, SINGLE at an index without an output "
+        "(sign refuses; flag byte swapped in afterwards), a script code longer than 252 bytes; Iterator::next stepping via "
+        "from_transaction_and_script_bits; eight API checks on the in-memory objects per built spend (Transaction::verify / _verify, "
+        "SighashSignature::to_hex / from_bytes / new, TxIn::get_finalised_script, warm hash cache vs fresh parse); "
         "non-trivial = the model ran the finalised script to the end (accept or false); distinct by (op, arguments)")
 TRUSTED = ["hand-written Gallina model coq/Model/InterpSig.v + coq/Model/Interp.v of src/interpreter/{mod,script_matching}.rs, "
            "TxIn::get_finalised_script, Transaction::_verify, ECDSA::verify_hashbuf_impl (tied by this correspondence run)",
